@@ -309,3 +309,7 @@ def run(ctx, fb, cfg):
     check_subsumes(ctx, lib, R + "K3.subsumes")
     check_normalize(ctx, lib, R + "K6.normalize")
     check_goal(ctx, lib, R + "K3.goal")
+    # the disequalities reported with an answer are the stored ones, fully resolved (shared with C03)
+    import C03
+
+    C03.check_store_walk_star(ctx, lib, R + "K3.store-walk-star")
